@@ -219,7 +219,7 @@ pub fn run(reg: &Registry, c: &RCase, ctx: &Ctx) -> PResult {
         Some(b) => {
             if let Some(h) = harvest() {
                 let mut h = h.lock().unwrap();
-                let e = h.entry(b.slug.clone()).or_insert_with(|| (0, b.detail.clone(), serde_json::to_string(&case_json()).unwrap_or_default().chars().take(600).collect()));
+                let e = h.entry(b.slug.clone()).or_insert_with(|| (0, b.detail.clone(), serde_json::to_string(&case_json()).unwrap_or_default().chars().take(30000).collect()));
                 e.0 += 1;
                 return Ok(());
             }
